@@ -62,6 +62,16 @@ CHECKS = {
          '(normal < 1 ms) on these finite fact tables is a refuting event.',
     note='Trusted: Python unification of finite terms. Rational keys are not generated. Known findings K2 (boxed integer call '
          'arguments), K23 (asserta histories), K25 (hang after retract of a variable-key clause) are reported as KNOWN-FINDING.'),
+ 'C05': dict(
+    level='exploration',
+    technique='runtime monitoring: differential oracle over a producer x consumer matrix for each integer value',
+    text='For boundary integers (0, +-1, 255, 2^31+-1, 2^55-1, 2^55, -2^55, -2^55-1, 2^63, +-2^64; random ones in thorough) every '
+         'producer (literal, text conversion, arithmetic through 2^60/2^64/10^30, multiply/divide by 2^70, length, atom_length, succ, '
+         'findall copy, database round trip, arg, boxed-then-copied/asserted) is combined with every integer-consuming context '
+         '(30 consumers incl. unification, ordering, sort, functor/arg, length, char_code, number_codes, between, format ~d, '
+         'assert/retract, first-argument clause selection); each cell must behave exactly as with the literal.',
+    note='Only agreement with the literal is asserted; consumers are used inside their documented domains (a cell whose literal '
+         'gives no value makes the run inconclusive). K2b (clause selection with boxed integers) is a KNOWN-FINDING.'),
 }
 
 NOT_APPLICABLE_REASON_UNBUILT = ('check designed in DESIGN.md but not built/validated yet in this session; '
